@@ -138,6 +138,51 @@ def run(shard):
         if nested or len(base.blocks) > 1:
             H.distinct(hashlib.md5((id_ + "|tree%d|" % depth + hist).encode("utf-8", "replace")).digest())
 
+        # (i') the same program with serialization artefacts set by hand on the data (what a document written by another
+        #      interpreter version, or an editing tool, can carry): private fields only, so the program is the same
+        import dataclasses as dc_
+        for c, _d in list(H.iter_code(code))[:6]:
+            if len(c.co_code) > 4000:
+                continue
+            try:
+                cd0 = CodeData.from_code(c)
+                nf0 = cd0.normalize()
+            except Exception:
+                continue
+            blocks = [list(b) for b in cd0.blocks]
+            flat_pos = [(bi, ii) for bi, b in enumerate(blocks) for ii in range(len(b))]
+            if not flat_pos:
+                continue
+            for what in ("line_offsets_override", "n_args_override", "nested_flag"):
+                try:
+                    if what == "nested_flag":
+                        cdv = dc_.replace(cd0, _nested=not cd0._nested)
+                    else:
+                        bi, ii = flat_pos[rng.randrange(len(flat_pos))]
+                        ins = blocks[bi][ii]
+                        if what == "line_offsets_override":
+                            ins2 = dc_.replace(ins, _line_offsets_override=rng.choice([(100,), (0,), (127, 1), (-128, 3)]))
+                        else:
+                            if type(ins.arg).__name__ == "Jump":
+                                continue
+                            ins2 = dc_.replace(ins, _n_args_override=rng.choice([2, 3]))
+                        nb = [list(b) for b in blocks]
+                        nb[bi][ii] = ins2
+                        cdv = dc_.replace(cd0, blocks=tuple(tuple(b) for b in nb))
+                except Exception as e:
+                    H.count("skipped:artefact_variant:" + type(e).__name__)
+                    continue
+                H.count("checks:C06.artefact_variant")
+                vcase = dict(state["case"], code_name=c.co_name, code_line=c.co_firstlineno, variant="hand-set " + what)
+                try:
+                    vn = cdv.normalize()
+                except Exception as e:
+                    H.violation("C06", "variant", "normalize raises on data with a hand-set artefact", vcase, "%s: %s" % (type(e).__name__, H.short(e, 200)))
+                    continue
+                if vn != nf0:
+                    H.violation("C06", "variant", "variants normalize differently", vcase,
+                                "data with a hand-set %s normalizes to different data than the same program without it: %s" % (what, first_diff(nf0, vn)))
+
         # (ii) variants of every code object of the program
         for c, _d in H.iter_code(code):
             if len(c.co_code) > 40000:
